@@ -5,7 +5,7 @@ Everything between //@begin-extracted and //@end-extracted is copied from /repo'
 every run; contracts are attached here.  Postcondition lines carry [Cxx] labels: a failing clause is
 reported against those properties."""
 import re
-from vx import Unit, Source, ExtractError, parse_enum_value, gen_req_enum, parse_bitflags, split_match_arms
+from vx import Unit, Source, ExtractError, parse_enum_value, gen_req_enum, parse_bitflags, split_match_arms, match_brace
 
 MSG = "vhost/src/vhost_user/message.rs"
 BRH = "vhost/src/vhost_user/backend_req_handler.rs"
@@ -27,6 +27,12 @@ def gen_enums(u, msg):
 pub fn direction_try_into(v: u32) -> (r: Result<VhostTransferStateDirection>)
     ensures match VhostTransferStateDirection::spec_try_from(v) { Some(d) => r == Ok::<VhostTransferStateDirection, Error>(d) && d.code() == v, None => r == Err::<VhostTransferStateDirection, Error>(Error::InvalidMessage) }
 { unimplemented!() }
+// R6 targets: `direction as u32` / `phase as u32` (enum discriminant casts; table proved-by: c01_request_code_names)
+#[verifier::external_body]
+pub fn direction_code(d: VhostTransferStateDirection) -> (r: u32) ensures r == d.code() { unimplemented!() }
+#[verifier::external_body]
+pub fn phase_code(d: VhostTransferStatePhase) -> (r: u32) ensures r == d.code() { unimplemented!() }
+pub fn unwrap_or_0(o: Option<u64>) -> (r: u64) ensures r == (match o { Some(a) => a, None => 0 }) { match o { Some(a) => a, None => 0 } }
 #[verifier::external_body]
 pub fn phase_try_into(v: u32) -> (r: Result<VhostTransferStatePhase>)
     ensures match VhostTransferStatePhase::spec_try_from(v) { Some(d) => r == Ok::<VhostTransferStatePhase, Error>(d) && d.code() == v, None => r == Err::<VhostTransferStatePhase, Error>(Error::InvalidMessage) }
@@ -69,14 +75,13 @@ BODY_IMPLS = [
 ]
 
 
-def gen_bodies(u, msg):
+def gen_bodies(u, msg, extra_ctors=False):
     """ByteValued impls (uninterpreted byte image) + the REAL is_valid bodies verified against the protocol rule"""
     trait_s, trait_e = None, None
     # default body of the trait method (for `impl VhostUserMsgValidator for X {}`)
     m = re.search(r'pub\s+trait\s+VhostUserMsgValidator\b[^{]*\{', msg.src)
     if not m:
         raise ExtractError("lost anchor: trait VhostUserMsgValidator")
-    from vx import match_brace
     tb = match_brace(msg.src, msg.mask, m.end() - 1)
     default_body = msg.fn_body("is_valid", within=(m.end(), tb))
     for ty, size, vspec in BODY_IMPLS:
@@ -119,12 +124,29 @@ def gen_bodies(u, msg):
         raise ExtractError("lost anchor: inherent VhostUserMemoryRegion::is_valid")
     u.extracted_fn(msg, "is_valid", within=span2, rename="is_valid_inherent", contract="    ensures r == region_valid(*self) // [C20,C05]")
     u.raw("}")
-    # constructors used by the server
-    for ty, fn, ens in (("VhostUserU64", "new", "r.value == value"),
-                        ("VhostUserConfig", "new", "r.offset == offset, r.size == size, r.flags == flags.bits")):
-        span = msg.impl_span(r'^impl %s$' % ty)
+    # constructors used by the server (and, with extra_ctors, by the frontend endpoint)
+    ctors = [("VhostUserU64", "new", "r.value == value"),
+             ("VhostUserConfig", "new", "r.offset == offset, r.size == size, r.flags == flags.bits")]
+    if extra_ctors:
+        ctors += [("VhostUserVringState", "new", "r.index == index, r.num == num"),
+                  ("VhostUserMemory", "new", "r.num_regions == cnt, r.padding1 == 0"),
+                  ("VhostUserMemoryRegion", "new", "r.guest_phys_addr == guest_phys_addr, r.memory_size == memory_size, r.user_addr == user_addr, r.mmap_offset == mmap_offset"),
+                  ("VhostUserSingleMemoryRegion", "new", "r.padding == 0, r.region == (VhostUserMemoryRegion { guest_phys_addr, memory_size, user_addr, mmap_offset })"),
+                  ("VhostUserTransferDeviceState", "new", "r.direction == direction.code(), r.phase == phase.code()"),
+                  ("VhostUserVringAddr", "from_config_data", "r.index == index, r.flags == config_data.flags, r.descriptor == config_data.desc_table_addr, r.used == config_data.used_ring_addr, r.available == config_data.avail_ring_addr, r.log == (match config_data.log_addr { Some(a) => a, None => 0 })")]
+    for ty, fn, ens in ctors:
+        span = None
+        for mm in re.finditer(r'(?m)^impl %s\s*\{' % ty, msg.src):
+            ob = mm.end() - 1
+            cb = match_brace(msg.src, msg.mask, ob)
+            if re.search(r'\bfn\s+%s\b' % fn, msg.src[ob:cb]) and 'xen_mmap_flags' not in msg.src[ob:cb]:
+                span = (ob + 1, cb)
+        if not span:
+            raise ExtractError("lost anchor: %s::%s" % (ty, fn))
         u.raw("impl %s {" % ty)
-        u.extracted_fn(msg, fn, within=span, contract="    ensures %s // [C01,C03]" % ens)
+        u.extracted_fn(msg, fn, within=span, contract="    ensures %s // [C01,C02,C03]" % ens,
+                       body_rw=[("R6", r'direction as u32', 'direction_code(direction)'), ("R6", r'phase as u32', 'phase_code(phase)'),
+                                ("R6", r'config_data\.log_addr\.unwrap_or\(0\)', 'unwrap_or_0(config_data.log_addr)')])
         u.raw("}")
 
 
@@ -179,9 +201,10 @@ HELPERS = [
             r is Ok ==> sent_one(*old(self), *final(self), reply_frame(*req, *msg, payload@, Seq::<int>::empty())) && !final(self).main_sock.io_failed@, // [C01,C04]
             r is Err ==> sent_nothing(*old(self), *final(self)) && final(self).main_sock.io_failed@,""")),
     ("handle_vring_fd_request", dict(contract="""
+        requires files is Some ==> files->Some_0@.len() >= 1   // a received descriptor list is never empty (recv contract)
         ensures
             *final(self) == *old(self),
-            (r is Ok) == (8 <= buf@.len() <= 4096 && ((vring_fd_value(buf@) & 0x100 == 0) == (files is Some && files->Some_0@.len() == 1))), // [C05,C09]
+            (r is Ok) == (8 <= buf@.len() <= 4096 && (if vring_fd_value(buf@) & 0x100 == 0 { files is Some && files->Some_0@.len() == 1 } else { files is None })), // [C05,C09]
             r is Ok ==> r->Ok_0.0 == vring_fd_value(buf@) as u8
                 && opt_file_id(r->Ok_0.1) == (if vring_fd_value(buf@) & 0x100 == 0 { seq![files->Some_0@[0].id@] } else { Seq::<int>::empty() }), // [C02,C09]""")),
     ("set_mem_table", dict(
@@ -258,11 +281,11 @@ ACK_ARMS = {
     "SET_VRING_ADDR": (9, "true", body_ok("VhostUserVringAddr"),
                        "Call::SetVringAddr({0}.index, {0}.flags, {0}.descriptor, {0}.used, {0}.available, {0}.log)".format(dec("VhostUserVringAddr")), None),
     "SET_VRING_BASE": (10, "true", body_ok("VhostUserVringState"), "Call::SetVringBase({0}.index, {0}.num)".format(dec("VhostUserVringState")), None),
-    "SET_VRING_CALL": (13, "true", "(hdr.size == 8 && req_ok(hdr) && ((vring_fd_value(buf@) & 0x100 == 0) == %s))" % ONE_FILE,
+    "SET_VRING_CALL": (13, "true", "(hdr.size == 8 && req_ok(hdr) && (if vring_fd_value(buf@) & 0x100 == 0 { %s } else { files is None }))" % ONE_FILE,
                        "Call::SetVringCall(vring_fd_value(buf@) as u8, if vring_fd_value(buf@) & 0x100 == 0 { seq![%s] } else { Seq::<int>::empty() })" % F0, None),
-    "SET_VRING_KICK": (12, "true", "(hdr.size == 8 && req_ok(hdr) && ((vring_fd_value(buf@) & 0x100 == 0) == %s))" % ONE_FILE,
+    "SET_VRING_KICK": (12, "true", "(hdr.size == 8 && req_ok(hdr) && (if vring_fd_value(buf@) & 0x100 == 0 { %s } else { files is None }))" % ONE_FILE,
                        "Call::SetVringKick(vring_fd_value(buf@) as u8, if vring_fd_value(buf@) & 0x100 == 0 { seq![%s] } else { Seq::<int>::empty() })" % F0, None),
-    "SET_VRING_ERR": (14, "true", "(hdr.size == 8 && req_ok(hdr) && ((vring_fd_value(buf@) & 0x100 == 0) == %s))" % ONE_FILE,
+    "SET_VRING_ERR": (14, "true", "(hdr.size == 8 && req_ok(hdr) && (if vring_fd_value(buf@) & 0x100 == 0 { %s } else { files is None }))" % ONE_FILE,
                       "Call::SetVringErr(vring_fd_value(buf@) as u8, if vring_fd_value(buf@) & 0x100 == 0 { seq![%s] } else { Seq::<int>::empty() })" % F0, None),
     "SET_PROTOCOL_FEATURES": (16, "true", body_ok("VhostUserU64"), "Call::SetProtocolFeatures(%s.value)" % dec("VhostUserU64"),
                               "final(self).acked_protocol_features == %s.value && final(self).virtio_features == old(self).virtio_features && final(self).acked_virtio_features == old(self).acked_virtio_features" % dec("VhostUserU64")),
